@@ -73,20 +73,23 @@ def step (G : BipG) : GOp → BipG × Outcome
 def run (G : BipG) (ops : List GOp) : BipG := ops.foldl (fun g o => (g.step o).1) G
 end BipG
 
-/-! ### `CompleteBipartiteGraph(L, R)`: every update is ignored, the views are closed forms.
-`add_edge` is `pass` (it never raises, whatever the arguments) and the neighbour views do not
-check their argument. -/
+/-! ### `CompleteBipartiteGraph(L, R)`: no update changes it, the views are closed forms.
+`add_edge` checks its arguments like `BipartiteGraph.add_edge` (`ValueError` outside
+`1..L × 1..R`) and otherwise does nothing; the neighbour views do not check their argument. -/
 structure CBipG where
   l : Nat
   r : Nat
   deriving Repr, DecidableEq, Inhabited
 
 namespace CBipG
+/-- the argument check of `CompleteBipartiteGraph.add_edge` -/
+def legal (G : CBipG) (u v : Int) : Bool := decide (1 ≤ u ∧ u ≤ G.l ∧ 1 ≤ v ∧ v ≤ G.r)
+
 def step (G : CBipG) : GOp → CBipG × Outcome
-  | .addEdge _ _ => (G, .ok)
+  | .addEdge u v => (G, if G.legal u v then .ok else .raised .valueError)
   | .removeEdge _ _ => (G, .noSuchMethod)
   | .updateVertexNumber _ => (G, .noSuchMethod)
-  | .addEdgesFrom _ => (G, .ok)
+  | .addEdgesFrom es => (G, if es.all (fun e => G.legal e.1 e.2) then .ok else .raised .valueError)
 def run (G : CBipG) (ops : List GOp) : CBipG := ops.foldl (fun g o => (g.step o).1) G
 
 def hasEdge (G : CBipG) (u v : Int) : Bool := decide (1 ≤ u ∧ u ≤ G.l ∧ 1 ≤ v ∧ v ≤ G.r)
